@@ -11,6 +11,8 @@ vars == <<l>>
 \* the returned raw text is the source span: by offsets when the result points into the input buffer,
 \* by content when the carrier made a private copy (small Bytes / FastStr inputs are inlined)
 SpanEqB(x, v, b) == IF x.a >= 0 THEN x.a = v.a /\ x.z = v.z ELSE x.raw = SubSeq(b, v.a + 1, v.z)
+\* a string result decodes to the code points the value denotes
+StrViewOk(x, v) == ("sv" \in DOMAIN x /\ v.t = "str") => (x.sv.some /\ x.sv.s = v.s)
 CheckedOkB(b, path, x) ==
   IF x.a >= 0 THEN CheckedGetOk(b, path, x.a, x.z) /\ x.raw = SubSeq(b, x.a + 1, x.z)
   ELSE \E a \in 0..(Len(b) - Len(x.raw)) : SubSeq(b, a + 1, a + Len(x.raw)) = x.raw /\ CheckedGetOk(b, path, a, a + Len(x.raw))
@@ -32,11 +34,12 @@ GetBad(r) ==
         \/ /\ ~x.panic /\ x.kind = "span"
            /\ IF x.unchecked
               THEN "c10" \in Checks /\ wholeLax /\ ~amb
-                   /\ (x.ok # exp.ok \/ (x.ok /\ ~SpanEqB(x, exp.v, r.b)))
+                   /\ (x.ok # exp.ok \/ (x.ok /\ ~SpanEqB(x, exp.v, r.b)) \/ (x.ok /\ ~StrViewOk(x, exp.v)))
               ELSE \/ ("c14" \in Checks /\ x.ok /\ ~(x.utf8 /\ CheckedOkB(r.b, r.path, x)))
                    \/ /\ "c10" \in Checks /\ root # NoVal /\ ~amb
                       /\ \/ x.ok # exp.ok
                          \/ (x.ok /\ ~SpanEqB(x, exp.v, r.b))
+                         \/ (x.ok /\ ~StrViewOk(x, exp.v))
                          \* the error category is judged only when the first value also decodes (strict machine)
                          \/ (~x.ok /\ PrefixOk(r.b, FALSE) /\ (x.nf # (exp.why = "notfound")))
                          \/ (~x.ok /\ PrefixOk(r.b, FALSE) /\ exp.why = "mismatch" /\ ~x.tm)
